@@ -81,21 +81,23 @@ func Build(o Options) (*Result, error) {
 		}
 		// channel-typed names of the whole package (a field declared in one file is ranged over in another)
 		pkgChans := map[string]bool{}
-		for _, e := range ents {
-			n := e.Name()
-			if e.IsDir() || !strings.HasSuffix(n, ".go") || strings.HasSuffix(n, "_test.go") {
-				continue
-			}
-			if ok, err := ctx.MatchFile(abs, n); err != nil || !ok {
-				continue
-			}
-			src := filepath.Join(abs, n)
-			if x, ok := o.Extra[filepath.Join(d, n)]; ok {
-				src = x
-			}
-			if f, err := parser.ParseFile(token.NewFileSet(), src, nil, 0); err == nil {
-				tmp := &rewriter{chanNames: pkgChans}
-				tmp.collectChanNames(f)
+		for round := 0; round < 2; round++ { // twice: a named channel type may be declared in a later file
+			for _, e := range ents {
+				n := e.Name()
+				if e.IsDir() || !strings.HasSuffix(n, ".go") || strings.HasSuffix(n, "_test.go") {
+					continue
+				}
+				if ok, err := ctx.MatchFile(abs, n); err != nil || !ok {
+					continue
+				}
+				src := filepath.Join(abs, n)
+				if x, ok := o.Extra[filepath.Join(d, n)]; ok {
+					src = x
+				}
+				if f, err := parser.ParseFile(token.NewFileSet(), src, nil, 0); err == nil {
+					tmp := &rewriter{chanNames: pkgChans}
+					tmp.collectChanNames(f)
+				}
 			}
 		}
 		for _, e := range ents {
@@ -238,16 +240,34 @@ func addImport(f *ast.File, name, path string) {
 // collectChanNames gathers field / variable names declared with a channel type
 // so that `range x.name` can be recognised without type checking.
 func (rw *rewriter) collectChanNames(f *ast.File) {
+	// named channel types: `type reportCh chan Report`
+	isChan := func(e ast.Expr) bool {
+		if _, ok := e.(*ast.ChanType); ok {
+			return true
+		}
+		if id, ok := e.(*ast.Ident); ok && rw.chanNames["type:"+id.Name] {
+			return true
+		}
+		return false
+	}
+	ast.Inspect(f, func(n ast.Node) bool {
+		if ts, ok := n.(*ast.TypeSpec); ok {
+			if _, ok := ts.Type.(*ast.ChanType); ok {
+				rw.chanNames["type:"+ts.Name.Name] = true
+			}
+		}
+		return true
+	})
 	ast.Inspect(f, func(n ast.Node) bool {
 		switch x := n.(type) {
 		case *ast.Field:
-			if _, ok := x.Type.(*ast.ChanType); ok {
+			if isChan(x.Type) {
 				for _, nm := range x.Names {
 					rw.chanNames[nm.Name] = true
 				}
 			}
 		case *ast.ValueSpec:
-			if _, ok := x.Type.(*ast.ChanType); ok {
+			if x.Type != nil && isChan(x.Type) {
 				for _, nm := range x.Names {
 					rw.chanNames[nm.Name] = true
 				}
